@@ -263,7 +263,7 @@ def run_block(block, ctx):
         rows = aclgen.row_alphabet(rules)[:4]
     else:
         if block["kind"] == "mpair":
-            _, fa, fb = aclgen.merge_pairs()[block["i"]]
+            _, fa, fb, _neg = aclgen.merge_pairs()[block["i"]]
             ra, rb_ = fa(), fb()
         else:
             ra, rb_ = A[block["i"]][1](), A[block["j"]][1]()
